@@ -99,7 +99,7 @@ def task(t):
                     ps = H.split_marked(x.out)
                     return pos + 1 < len(ps) and ps[pos + 1].strip().split('\n')[0] == piece
                 fs = ''.join(['(set-option :produce-models true)' if fam.models and 'nomodels' not in opts else '', S.opt_text(opts), '(set-logic %s)' % fam.logic, fam.decls] + ['(assert %s)' % pool[i] for i in active] + ['(check-sat)'])
-                if S.confirm(script, (), pred) and S.confirm(fs, (), lambda x: S.blocks(x.out)[:1] == [want]):
+                if S.confirm(script, (), pred, cls=('c04', famname, opts, piece, want)) and S.confirm(fs, (), lambda x: S.blocks(x.out)[:1] == [want], cls=('c04f', famname, opts, want)):
                     sym = 'incremental_%s_fresh_%s' % (piece, want)
                     rec = {'logic': fam.logic, 'family': fam.name, 'options': sorted(opts), 'symptom': sym, 'input_class': 'history',
                            'history_shape': ','.join(x if not x.startswith('a') else 'assert' for x in hist[:pos + 1]),
